@@ -154,7 +154,7 @@ def ev_inverter(case):
             skip("reference data covariance not positive definite")
             continue
         alpha = ref.alpha(sc)
-        P = G.Pert(G.tofloat(sc["C"]), G.tofloat(sc["r"]), G.tofloat(alpha))
+        P = G.Pert(G.tofloat(sc["C"]), G.tofloat(sc["r"]), G.tofloat(alpha), rabs=ref.residual_rounding_scale(theta))
         rmean, rcov, pmean, K = ref.posterior(theta)
         rmean, rcov, pmean, K = G.tofloat(rmean), G.tofloat(rcov), G.tofloat(pmean), G.tofloat(K)
         W = A.T @ np.diag(e**-2.0) @ A
@@ -177,6 +177,7 @@ def ev_inverter(case):
         # first-order bounds: LU solve of (I + K W) P = K, and dP = (I+KW)^-1 dK (I+WK)^-1 for the rounding of K
         tolP = ce * (condM * nP + nMi**2 * nK)
         tolm = ce * (condM * nP * nu + nMi**2 * nK * nu + nMi * nK * nu + float(np.linalg.norm(pmean)) + float(np.linalg.norm(rmean)))
+        tolm += nP * float(np.linalg.norm(np.abs(A).T @ (P.dr / e**2)))  # rounding of the residual y - A m
 
         with lib("calculate_posterior"):
             mu, cov = inv.calculate_posterior(th.copy())
